@@ -30,9 +30,11 @@ def main(argv):
     mod = importlib.import_module(f"vp.props.{prop.lower()}")
     if replay:
         return mod.replay(replay)
+    from .watchdog import Timeout
+
     try:
         return mod.check(tier)
-    except Exception as e:  # noqa: BLE001
+    except (Exception, Timeout) as e:  # noqa: BLE001
         # The checks do not raise on the tree they were built for.  An exception escaping one means the code under test
         # behaved in a way no oracle anticipated (e.g. infinite recursion in a comparison operator): report it as a
         # violation with a replayable record instead of dying without a verdict.
